@@ -92,12 +92,16 @@ int32_t jls_buf_realloc(struct jls_buf_s * self, size_t size) {
         alloc_size *= 2;
     }
 
+    size_t cur_offset = (NULL == self->cur) ? 0 : (size_t) (self->cur - self->start);
     uint8_t * ptr = realloc(self->start, alloc_size);
     if (NULL == ptr) {
         JLS_LOGE("jls_buf_realloc out of memory");
         return JLS_ERROR_NOT_ENOUGH_MEMORY;
     }
+    // the block may have moved: re-base the pointers into it
     self->start = ptr;
+    self->cur = ptr + cur_offset;
+    self->end = ptr + self->length;
     self->alloc_size = alloc_size;
     return 0;
 }
@@ -115,9 +119,9 @@ size_t jls_buf_length(struct jls_buf_s * self) {
 int32_t jls_buf_copy(struct jls_buf_s * self, const struct jls_buf_s * src) {
     ROE(jls_buf_realloc(self, src->length));
     memcpy(self->start, src->start, src->length);
-    self->cur = 0;
+    self->cur = self->start;
     self->length = src->length;
-    self->end = self->cur + self->length;
+    self->end = self->start + self->length;
     return 0;
 }
 
